@@ -12,7 +12,7 @@
 (*   withp : -p <fmt> given                                                 *)
 (*   fault : "none" | "missing_script" | "missing_source" | "bad_config" | "devfull" *)
 (***************************************************************************)
-EXTENDS Integers, Sequences, FiniteSets, TLC
+EXTENDS Integers, Sequences, FiniteSets, TLC, Json
 
 CONSTANT CliDeviations   \* "NoRemoveOnError": the partial file is left behind; "RemoveWrongPath": cleanup uses the -t argument, not the resolved path
 
@@ -33,7 +33,8 @@ Init ==
   /\ argv \in [fmt : Fmts, kind : Kinds, withp : BOOLEAN, fault : Faults]
   /\ (argv.fault = "devfull") = (argv.kind = "devfull")
   /\ pc = "stat" /\ chosen = "" /\ where = ""
-  /\ fs = (IF argv.kind = "existing_larger" THEN "old" ELSE "absent")
+  \* "old": something is already at the -t name (a larger file from an earlier build; a symlink to a device that refuses writes)
+  /\ fs = (IF argv.kind \in {"existing_larger", "devfull"} THEN "old" ELSE "absent")
   /\ exit = 0 - 1 /\ said = {}
 
 Fail(msg) == /\ exit' = 1 /\ said' = said \cup {msg} /\ pc' = "done"
@@ -90,6 +91,12 @@ WritesWhereAsked ==
   (pc = "done" /\ exit = 0) =>
      where = (IF argv.kind = "empty" THEN "cwd/conventional" ELSE IF IsDirKind(argv.kind) THEN "dir/conventional" ELSE "target")
 InfersOnlyWhenNotGiven == (pc = "done" /\ exit = 0) => chosen = argv.fmt
+
+(* behaviours for replay: every terminal state is exported (an always-true invariant with a print side effect, *)
+(* -workers 1); the harness runs the real binary with exactly this argv and compares the terminal state         *)
+ExportBehaviours ==
+  pc = "done" => PrintT(<<"CLIBEHAVIOUR", ToJson([argv |-> argv, exit |-> exit, where |-> where, fs |-> fs,
+                                                   created |-> "created" \in said, cause |-> "cause" \in said])>>)
 
 (* the terminal outcome as a function of argv (what a trace of one run is compared with) *)
 ExpectFail(a) == \/ a.fault # "none"
